@@ -445,6 +445,36 @@ func TestGCCPacers(t *testing.T) {
 			}
 			p.AddStream(uint32(50+i), sinks[i]) //nolint:gosec
 		}
+		// the estimator changes the pacer's rate from its own goroutine while packets are written and paced out: sharp drops and rises
+		stopRates := make(chan struct{})
+		var ratesWG sync.WaitGroup
+		if rapid.Bool().Draw(t, "rateChanger") {
+			ratesWG.Add(1)
+			go func() {
+				defer ratesWG.Done()
+				for i := 0; ; i++ {
+					select {
+					case <-stopRates:
+						return
+					default:
+					}
+					if i%2 == 0 {
+						p.SetTargetBitrate(rate * 8)
+					} else {
+						p.SetTargetBitrate(rate * 2)
+					}
+					runtime.Gosched()
+				}
+			}()
+		}
+		defer func() {
+			select {
+			case <-stopRates:
+			default:
+				close(stopRates)
+			}
+			_ = kit.Guard(5*time.Second, ratesWG.Wait) // a rate change that never returns has been reported by then
+		}()
 		var wg sync.WaitGroup
 		for w := range plans {
 			wg.Add(1)
@@ -471,28 +501,35 @@ func TestGCCPacers(t *testing.T) {
 			}(w)
 		}
 		if o := kit.Guard(0, wg.Wait); !o.OK() {
-			_ = p.Close()
+			kit.BoundedClose(p.Close)
 			t.Fatalf("writers blocked: %s", o)
 		}
 		for w := range acceptedOK {
 			for k, ok := range acceptedOK[w] {
 				if !ok {
-					_ = p.Close()
+					kit.BoundedClose(p.Close)
 					t.Fatalf("Write of packet %d of writer %d on an added stream failed", k, w)
 				}
 			}
 		}
 		wait := time.Duration(float64(sumBits)/float64(rate)*3*float64(time.Second)) + 2*time.Second
 		drained := kit.Eventually(wait, func() bool { return totalDelivered(sinks) >= total })
+		if !drained {
+			// slow is inconclusive, stuck is not: a pacer that still answers a rate change is merely behind
+			if o := kit.Guard(0, func() { p.SetTargetBitrate(rate * 2) }); !o.OK() {
+				kit.BoundedClose(p.Close)
+				t.Fatalf("%d of %d packets delivered after %v and SetTargetBitrate does not return: %s (leaky bucket %v, rate %d)", totalDelivered(sinks), total, wait, o, leaky, rate)
+			}
+		}
 		if err := checkDelivery(sinks, plans, acceptedOK, drained); err != nil {
-			_ = p.Close()
+			kit.BoundedClose(p.Close)
 			t.Fatalf("%v (leaky bucket %v, rate %d)", err, leaky, rate)
 		}
 		if err := checkUntampered(sinks); err != nil {
-			_ = p.Close()
+			kit.BoundedClose(p.Close)
 			t.Fatalf("%v (leaky bucket %v, rate %d)", err, leaky, rate)
 		}
-		_ = p.Close()
+		kit.BoundedClose(p.Close)
 		if !drained {
 			t.Skipf("inconclusive: %d of %d delivered within %v", totalDelivered(sinks), total, wait)
 		}
